@@ -263,15 +263,13 @@ func cmdCheck(args []string) int {
 	if nw <= 0 {
 		nw = runtime.NumCPU()
 	}
+	cpuTokens = make(chan struct{}, nw)
 	results := make([]*LemmaResult, len(sel))
 	var wg sync.WaitGroup
-	sem := make(chan struct{}, nw)
 	for i, l := range sel {
 		wg.Add(1)
 		go func(i int, l *Lemma) {
 			defer wg.Done()
-			sem <- struct{}{}
-			defer func() { <-sem }()
 			results[i] = runLemma(ld, l, tier, seed, knownOpen, outDir, *trace)
 		}(i, l)
 	}
@@ -419,15 +417,6 @@ func runLemma(ld *loaded, l *Lemma, tier string, seed int, knownOpen map[string]
 	if fn == nil {
 		return fail("harness function not found: " + l.Func)
 	}
-	logPath := filepath.Join(outDir, strings.ReplaceAll(l.ID, ".", "_")+".smt2")
-	if os.Getenv("VERIF_SMTLOG") == "" && tier != "thorough" {
-		logPath = ""
-	}
-	solver, err := NewSolver("z3", []string{"-in"}, logPath, seed, 60000)
-	if err != nil {
-		return fail("cannot start z3: " + err.Error())
-	}
-	defer solver.Close()
 	opts := Options{MaxSteps: 400000, MaxPaths: 20000, ConcCap: 16, MaxDepth: 200, Trace: trace, KnownOpen: knownOpen, AllMapOrders: l.MapOrders}
 	if l.ConcCap > 0 {
 		opts.ConcCap = l.ConcCap
@@ -438,9 +427,26 @@ func runLemma(ld *loaded, l *Lemma, tier string, seed int, knownOpen map[string]
 	if l.MaxSteps > 0 {
 		opts.MaxSteps = l.MaxSteps
 	}
-	m := &Machine{prog: ld.prog, fset: ld.prog.Fset, solver: solver, opts: opts, initOK: map[string]bool{}, modPath: modPath}
+	initOK := map[string]bool{}
 	for _, p := range initStd {
-		m.initOK[p] = true
+		initOK[p] = true
+	}
+	nsolver := 0
+	var smu sync.Mutex
+	mk := func() (*Machine, error) {
+		smu.Lock()
+		nsolver++
+		k := nsolver
+		smu.Unlock()
+		logPath := ""
+		if os.Getenv("VERIF_SMTLOG") != "" || tier == "thorough" {
+			logPath = filepath.Join(outDir, fmt.Sprintf("%s_w%d.smt2", strings.ReplaceAll(l.ID, ".", "_"), k))
+		}
+		solver, err := NewSolver("z3", []string{"-in"}, logPath, seed, 60000)
+		if err != nil {
+			return nil, err
+		}
+		return &Machine{prog: ld.prog, fset: ld.prog.Fset, solver: solver, opts: opts, initOK: initOK, modPath: modPath}, nil
 	}
 	budget := 240 * time.Second
 	if tier == "thorough" {
@@ -449,5 +455,5 @@ func runLemma(ld *loaded, l *Lemma, tier string, seed int, knownOpen map[string]
 	if l.TimeoutS > 0 {
 		budget = time.Duration(l.TimeoutS) * time.Second
 	}
-	return m.RunLemma(l, fn, time.Now().Add(budget))
+	return RunLemma(mk, l, fn, time.Now().Add(budget), opts.MaxPaths)
 }
